@@ -79,7 +79,7 @@ Definition spec_holds (c : case) : bool :=
   let f := o_find c in
   (o_errs c =? 0)
   (* "later positive values override, negative cancel": Find = the reference reading *)
-  && (negb (nonzero_ops (c_lops c)) ||
+  && (negb (last_nonzero (c_lops c)) ||
       rows_eqb f (let after := skipn (Z.to_nat (ref_off (c_lops c))) (ordered (c_ord c) (matches (c_cond c) (c_tbl c))) in
                   match ref_lim (c_lops c) with Some n => firstn (Z.to_nat n) after | None => after end))
   && rows_eqb (o_maps c) f && rows_eqb (o_rows c) f && rows_eqb (o_scan c) f
